@@ -928,9 +928,9 @@ inline void comm::handle_next_receive(MPI_Status                   status,
       stats.rpc_execute();
     }
   }
-  YGM_VERIF_HOOK("hnr-", m_send_buffer_bytes, m_pending_isend_bytes, m_in_process_receive_queue);
   post_new_irecv(buffer);
   flush_to_capacity();
+  YGM_VERIF_HOOK("hnr-", m_send_buffer_bytes, m_pending_isend_bytes, m_in_process_receive_queue);
 }
 
 /**
